@@ -777,6 +777,8 @@ class Mini:
             ga = H.call_gargs(n)
             if len(ga) >= 2 and ga[0] in INT_BITS and ga[1] in INT_BITS:
                 return self.cast(args[0], ga[1], ga[0])
+            if len(ga) >= 2 and ga[0] in INT_BITS and ga[1] == "bool" and isinstance(args[0], bool):
+                return int(args[0])
         if p.startswith("std::f32::<impl f32>::") and last in ("from_le_bytes", "from_be_bytes"):
             b = list(args[0])
             return Wide(b if last == "from_le_bytes" else b[::-1])
